@@ -228,6 +228,11 @@ type Result struct {
 	Hour0    int64
 	Hour1    int64
 
+	// Slack: the real startTime is taken somewhere between the creation of the conn and the first
+	// SetDeadline call (key generation, scheduling, GC in between); every offset measured from the
+	// conn's creation is therefore late by an unknown amount in [0, Slack].
+	Slack time.Duration
+
 	CloseByTimeout bool
 	CloseOff       time.Duration // the read deadline that fired right before the close
 	Conn           *Conn
@@ -274,7 +279,11 @@ func RunWrap(sf base.ServerFactory, steps []Step, steer []byte, releaseEarly boo
 	} else {
 		res.ErrClass = "blocked"
 	}
+	res.Slack = -1
 	for _, e := range c.ScriptConn.EventsCopy() {
+		if res.Slack < 0 && (e.Kind == "deadline" || e.Kind == "rdeadline") {
+			res.Slack = e.At
+		}
 		switch e.Kind {
 		case "deadline":
 			if e.Off == 0 {
@@ -298,6 +307,9 @@ func RunWrap(sf base.ServerFactory, steps []Step, steer []byte, releaseEarly boo
 			res.Offs = append(res.Offs, 0)
 			res.Closes++
 		}
+	}
+	if res.Slack < 0 {
+		res.Slack = time.Duration(res.EndNs - res.StartNs)
 	}
 	res.Wire = c.ScriptConn.TakeWritten()
 	c.mu.Lock()
@@ -486,8 +498,8 @@ func (s *Srv) Blob(nodeID, idPub, repr, pad []byte, hour int64) []byte {
 
 // ---------------------------------------------------------------- comparison
 
-// Tolerance for deadline offsets: the model's accept time is the conn's creation, the real
-// startTime is taken a little later (after the session key was generated).
+// Tolerance for deadline offsets beyond the measured slack (the model's accept time is the
+// conn's creation, the real startTime is taken up to Result.Slack later).
 const Tolerance = 100 * time.Millisecond
 
 // Compare returns "" when the conn-visible behaviour and the returned error class agree.
@@ -504,7 +516,7 @@ func Compare(g Result, m ModelRun) string {
 		}
 		if strings.HasSuffix(g.Tokens[i], "+") {
 			d := g.Offs[i] - time.Duration(m.Offs[i])
-			if d < -Tolerance || d > Tolerance {
+			if d < -Tolerance || d > g.Slack+Tolerance {
 				return "different deadline value"
 			}
 		}
